@@ -77,6 +77,7 @@ def _clifford_circuit_single_qubit_gate(key):
         index = int(index)
         assert index>=0
         self.gate_index_list.append((key, index))
+        self._R = self._S = None #invalidate the cached symplectic form
     return hf0
 
 def _clifford_circuit_two_qubit_gate(key):
@@ -85,6 +86,7 @@ def _clifford_circuit_two_qubit_gate(key):
         index1 = int(index1)
         assert (index0>=0) and (index1>=0) and (index0!=index1)
         self.gate_index_list.append((key, index0, index1))
+        self._R = self._S = None #invalidate the cached symplectic form
     return hf0
 
 _basic_clifford_dict = {
